@@ -24,6 +24,15 @@ CLAIMS['C07'] = dict(
          'Trusted: clang lowering, IR interpreter (validated against native build each run), z3.',
     technique=TECH_A, engine='llir', ref='DESIGN.md section 3, C07')
 
+CLAIMS['C06'] = dict(
+    text='On every grid within the bound, with all flow-direction codes symbolic, z3 shows on every feasible path of the real kernels that '
+         'upstream and downstream are inverse relations (sinks -2, off-grid/invalid -1, no duplicates, packed), that delineate_area returns exactly '
+         '{outlet} + cells whose downstream chain reaches the outlet without passing an inlet (each once, empty when nothing drains, error on '
+         'cycles / exhausted buffers / invalid arguments), and that river traces and flow-path lengths follow the downstream chain with 1 / sqrt(2) steps.',
+    note='Bounds: up/down grids to 3x3; delineation, river, flow paths: grids <= 4 cells quick, <= 6 thorough; inlet sets <= 1 (<= 2 thorough). '
+         'Codes from {8 ESRI, 0, one invalid}. Hole filling (scipy) outside. Trusted: clang lowering, IR interpreter (validated vs native each run), z3.',
+    technique=TECH_A, engine='llir', ref='DESIGN.md section 3, C06')
+
 PENDING = 'check not built yet in this session (planned, see DESIGN.md section 3)'
 NOT_APPLICABLE = {
     'C13': 'persistence is carried by numpy tofile/fromfile, dtype objects, zipfile and float repr: no arithmetic core a solver can be given; '
